@@ -41,8 +41,11 @@ func runC15(r *Run) {
 	}
 	nOpt := r.NilOptional(inCtfe, "*configpb*")
 	r.Floor("optional configuration parts used in ctfe", nOpt, 2)
-	nIdx := r.ConstIndexGuarded(inCtfe)
-	r.Floor("constant indices on library call results", nIdx, 1)
+	// every constant index on a library call's result is guarded (however many there are: none is fine); what the
+	// former floor of one such index stood for is counted instead: the strings handed to the storage drivers'
+	// parsers are derived from the configuration by steps that cannot panic (rules_t6c1518.go)
+	r.ConstIndexGuarded(inCtfe)
+	r.Floor("configuration strings handed to driver parsers", c15ParserInputs(r, inCtfe), 2)
 	r.Rule("C15.R2")
 	c15ValidateLogConfig(r)
 	c15Sets(r)
@@ -105,13 +108,15 @@ func c15ValidateLogConfig(r *Run) {
 	for _, c := range causes {
 		r.SgRejects(fn, k+c.name, c.c...)
 	}
+	// the statement's own example: a connection string without a scheme separator (rules_t6c1518.go)
+	c15SchemeSeparator(r, fn, k+"ctfe-storage-mysql-without-scheme-separator", ctfe, isMysql("T"))
 	// limit before start: both bounds configured and valid (the invalid ones are the two causes above), the
 	// validated limit instant before the validated start instant.  The presence of a bound may be re-tested on
 	// the validated pointer instead of the configuration field: the walk follows it there (WalkRefined).
 	vStart, vLimit := c15ValidatedInstant(r, fn, "NotAfterStart"), c15ValidatedInstant(r, fn, "NotAfterLimit")
 	valid := func(f string) SgAtom { return sgNil("(*timestamppb.Timestamp).CheckValid(*"+f+"*)", "nil") }
 	c15RejectsRefined(r, fn, k+"limit-before-start", start("non"), limit("non"), valid("NotAfterStart"), valid("NotAfterLimit"), sgOrd(vLimit, vStart, "<"))
-	r.Floor("rejection causes of ValidateLogConfig", len(causes)+1, 18)
+	r.Floor("rejection causes of ValidateLogConfig", len(causes)+2, 19)
 
 	succ := sgOkReturns(fn)
 	// merge delays: exact on sample orderings of (max, expected, 0)
